@@ -79,6 +79,8 @@ def fixed_len(co) -> Optional[int]:
     from odxtools.standardlengthtype import StandardLengthType
     from odxtools.structure import Structure
 
+    need = [0]  # last byte that actually holds a described parameter value (BYTE-SIZE padding excluded)
+
     def walk(params, origin: int) -> Optional[int]:
         cursor = origin
         end = origin
@@ -102,21 +104,28 @@ def fixed_len(co) -> Optional[int]:
                         return None
                     nbytes = (dct.bit_length + bitpos + 7) // 8
                 elif isinstance(dop, Structure):
-                    if dop.byte_size is not None:
-                        return None
                     sub = walk(dop.parameters, pos)
                     if sub is None:
                         return None
                     nbytes = sub - pos
+                    if dop.byte_size is not None:
+                        # a structure with BYTE-SIZE occupies exactly that many bytes
+                        if nbytes > dop.byte_size:
+                            return None
+                        nbytes = dop.byte_size
                 else:
                     return None
             else:
                 return None
             cursor = pos + nbytes
             end = max(end, cursor)
+            if not (isinstance(p, (ValueParameter, PhysicalConstantParameter)) and isinstance(p.dop, Structure)):
+                need[0] = max(need[0], cursor)
         return end
 
-    return walk(co.parameters, 0)
+    if walk(co.parameters, 0) is None:
+        return None
+    return need[0]
 
 
 # ------------------------------------------------------------------ worker state
